@@ -1318,6 +1318,7 @@ struct Ctx {
     vacuity: bool,
     files: BTreeMap<String, (String, syn::File)>,
     report: Vec<String>, // JSON objects
+    lazy_names: Vec<String>, // lazy_static entries turned into functions by `//@ lazyconst`
 }
 
 impl Ctx {
@@ -1934,6 +1935,23 @@ fn emit_fn(ctx: &mut Ctx, d: &FnDir, out: &mut String) {
         }
     }
 
+    // uses of `//@ lazyconst` entries: `&*NAME` / `&NAME` (deref of the lazy_static) read the function that replaced it
+    for nm in &ctx.lazy_names {
+        let re1 = regex::Regex::new(&format!(r"&\s*\*\s*{}\b", regex::escape(nm))).unwrap();
+        let re2 = regex::Regex::new(&format!(r"&\s*{}\b(\s*\()?", regex::escape(nm))).unwrap();
+        let n1 = re1.find_iter(&body).count();
+        if n1 > 0 {
+            body = re1.replace_all(&body, regex::NoExpand(&format!("&{}()", nm))).into_owned();
+        }
+        let mut n2 = 0;
+        let b2 = re2.replace_all(&body, |c: &regex::Captures| {
+            if c.get(1).is_some() { c[0].to_string() } else { n2 += 1; format!("&{}()", nm) }
+        }).into_owned();
+        body = b2;
+        if n1 + n2 > 0 {
+            subs_done.push(format!("[lazyconst] {} use(s) of lazy_static {} read the extracted function {}()", n1 + n2, nm, nm));
+        }
+    }
     for (k, v) in &d.opts {
         if k.starts_with("subopt") {
             // optional substitution: applied (every occurrence) when the pattern is present, skipped silently otherwise
@@ -2293,6 +2311,28 @@ fn process_text(ctx: &mut Ctx, tpl: &str, out: &mut String, depth: usize) {
                     ctx.report.push(format!("{{\"kind\":\"item\",\"name\":{},\"file\":{},\"text\":{}}}", json_str(name), json_str(&words[1]), json_str(&format!("opcode table entry {}: {}", found[0], name))));
                     i += 1;
                 }
+                "lazyconst" => {
+                    // //@ lazyconst <file> <NAME>: a `lazy_static!` entry `pub static ref NAME: BigInt = BigInt::from(<int literal>);` becomes the
+                    // verified function `pub fn NAME() -> (r: BigInt) ensures r@ == <literal> { BigInt::from(<literal>) }`; uses `&*NAME` are
+                    // rewritten by the unit with `suball…="& * NAME=>&NAME()"`. The VALUE is read from the source on every run.
+                    let (src, _) = ctx.load(&words[1]).clone();
+                    let name = &words[2];
+                    let re = regex::Regex::new(&format!(r"static\s+ref\s+{}\s*:\s*(\w+)\s*=\s*(\w+)\s*::\s*from\s*\(\s*([0-9_]+)(?:[iu](?:8|16|32|64|128|size))?\s*\)\s*;", regex::escape(name))).unwrap();
+                    let caps: Vec<_> = re.captures_iter(&src).collect();
+                    if caps.len() != 1 {
+                        die(&format!("lost anchor: lazy_static `{}` = <Type>::from(<int literal>) found {} times in {}", name, caps.len(), words[1]));
+                    }
+                    let (ty, ty2, lit) = (caps[0][1].to_string(), caps[0][2].to_string(), caps[0][3].to_string());
+                    if ty != ty2 {
+                        die(&format!("unsupported construct: lazy_static {}: {} initialised from {}", name, ty, ty2));
+                    }
+                    let _ = writeln!(out, "//vx-begin item {}", name);
+                    let _ = writeln!(out, "#[allow(non_snake_case)] pub fn {}() -> (r: {}) ensures r@ == {} {{ {}::from({}u64) }}", name, ty, lit, ty, lit);
+                    let _ = writeln!(out, "//vx-end item {}", name);
+                    ctx.report.push(format!("{{\"kind\":\"item\",\"name\":{},\"file\":{},\"text\":{}}}", json_str(name), json_str(&words[1]), json_str(&format!("lazy_static {}: {} = {}::from({})", name, ty, ty, lit))));
+                    ctx.lazy_names.push(name.to_string());
+                    i += 1;
+                }
                 "implconst" => {
                     // //@ implconst <file> <Type>::<NAME>   followed by spec lines until //@ end
                     if words.len() < 3 {
@@ -2465,6 +2505,7 @@ fn main() {
         consts: BTreeMap::new(),
         files: BTreeMap::new(),
         report: vec![],
+        lazy_names: vec![],
     };
     let mut out = String::new();
     process_text(&mut ctx, &tpl, &mut out, 0);
